@@ -353,7 +353,7 @@ type logScanner struct {
 
 var simLog = &logScanner{counts: map[string]int{}, echo: os.Getenv("SIM_LOG") != ""}
 
-var logPhrases = []string{"queue full", "queue2 full", "channel full", "queue is full", "connection stuck", "ERROR"}
+var logPhrases = []string{"queue full", "queue2 full", "channel full", "queue is full", "connection stuck", "ERROR", "outbound queue limit exceeded"}
 
 func (l *logScanner) Write(p []byte) (int, error) {
 	s := string(p)
